@@ -9,6 +9,18 @@ CHECKS = {
    technique="bounded-exhaustive enumeration of (model, text) on the real predictor vs. a naive reference scorer",
    text="Every model in five small families (all <=2/<=3-entry subsets of a pattern pool, suffix chains, threshold weights, large windows around the fixed/variable weight switch, tag-aware scorer variants) x every text over a 3/4-letter multi-byte alphabet up to length 5/6 is executed on the real Predictor and compared boundary by boundary with a triple-loop reference of the pointwise linear model. Exhaustive within those bounds; the defects this property worries about (suffix merge, edge offsets, cache table arithmetic) have small witnesses.",
    note="Trusted: the reference position law (README dictionary example, scorer test diagrams), CharacterType::get_type, the harness model mirror (self-checked against resources/model.bin on every run). Outside the bound: >3 interacting entries, texts longer than the bound, i32 overflow."),
+ "C02": dict(level="exploration", section="3/C02",
+   technique="bounded-exhaustive enumeration of all boundary label vectors on real Sentence objects vs. a reference tokeniser",
+   text="Every label vector in {N,W,U}^(n-1) for n up to 9/12 characters (all 3^(n-1) of them), two text shapes (ASCII and 1-4-byte characters including the format delimiters) and tag counts 0 and 2 with a distinct tag in every slot, is turned into a real Sentence (from_raw + boundaries_mut + reset_tags + tags_mut) and iter_tokens / Token::{start,end,surface,tags} / write_tokenized_text are compared with a reference segmenter. Runs of consecutive unknown-containing segments, the case the property singles out, occur in every length >= 5.",
+   note="Trusted: ref_tokens / ref_write_tokenized in refmodel.rs. Outside the bound: sentences longer than 12 characters (the iterator state is two indices; longer inputs repeat the same transitions)."),
+ "C03": dict(level="exploration", section="3/C03",
+   technique="bounded-exhaustive write->parse round trip and parse->write idempotence over hostile alphabets",
+   text="All texts up to 4/5 characters over {a, space, /, backslash, 1-, 3- and 4-byte letters} x all fully segmented label vectors; 1-3 tokens x every per-token tag list (absent entries included) over 8 hostile tags; a cross product on reduced pools; and every string up to length 7/9 over {a, space, /, backslash, hiragana} for write-after-parse idempotence. Each is written by the real writer and re-parsed by the real parser; text, boundaries and per-token tags (up to trailing absent tags) must agree and the written bytes must be valid UTF-8.",
+   note="Trusted: nothing beyond the harness comparison. A panic of the first parse is not counted here (parser totality is C05). Outside the bound: longer texts/tags, tags on non-final characters (documented as ignored)."),
+ "C04": dict(level="exploration", section="3/C04",
+   technique="bounded-exhaustive write->parse round trip of the partial-annotation format",
+   text="All texts up to 4/5 characters over {a, hiragana, -, |, space, /, backslash} x all {-,|,space} label vectors; reduced texts x every <=1-tag assignment on every character over 9 hostile tags (delimiters, escapes, multi-byte); <=2-character texts x every <=2-tag list per character. Written by the real writer, re-parsed by the real parser, compared on text, every label and every character's tags up to trailing absent tags.",
+   note="Trusted: nothing beyond the harness comparison. Outside the bound: longer texts, more than 2-3 tags per character."),
 }
 
 PENDING_REASON = "check not built yet in this round (planned in DESIGN.md section 3); no claim is made"
